@@ -183,7 +183,12 @@ def preimage_real_transforms(verdict, tier, seed):
             dict(affine_transform=False, bounded_to_unbounded=True, bounded_transform="probit"),
             dict(affine_transform=True, bounded_to_unbounded=False),
             dict(affine_transform=True, bounded_to_unbounded=True, bounded_transform="logit"),
-            dict(affine_transform=True, bounded_to_unbounded=True, bounded_transform="probit", periodic_parameters=["b"])]
+            dict(affine_transform=True, bounded_to_unbounded=True, bounded_transform="probit", periodic_parameters=["b"]),
+            # preconditioning="flow": a trained flow (VerifFlow through the entry point) as the transform
+            dict(flow="verifflow", affine_transform=False, bounded_to_unbounded=True, bounded_transform="logit")]
+    if tier != "quick":
+        cfgs.append(dict(flow="zuko", affine_transform=True, bounded_to_unbounded=True, bounded_transform="probit",
+                         flow_kwargs={"hidden_features": [8]}, fit_kwargs={"n_epochs": 1, "batch_size": 32}))
     nss = ["numpy", "torch", "jax"] if tier != "quick" else ["numpy", ["torch", "jax"][seed % 2]]
     for ns in nss:
         xp = smcdrv.get_xp(ns)
@@ -212,7 +217,13 @@ def preimage_real_transforms(verdict, tier, seed):
                 def lp(s):
                     xn = np.asarray(smcdrv.to_np(s.x), dtype=np.float64); seen["prior"].append(xn.copy())
                     return s.xp.asarray(p_np(xn))
-                tr = CompositeTransform(parameters=params, prior_bounds=bounds, xp=xp, dtype="float64", **cf)
+                if cf.get("flow"):
+                    from aspire.transforms import FlowPreconditioningTransform
+                    kw = {k: v for k, v in cf.items() if k != "flow"}
+                    tr = FlowPreconditioningTransform(parameters=params, prior_bounds=bounds, xp=xp, dtype="float64",
+                                                      flow_backend=cf["flow"], **kw)
+                else:
+                    tr = CompositeTransform(parameters=params, prior_bounds=bounds, xp=xp, dtype="float64", **cf)
                 xfit = np.stack([rng.uniform(-2.5, 4.5, 64), rng.uniform(0.1, 1.9, 64)], axis=1)
                 zfit = tr.fit(xp.asarray(xfit))
                 z = smcdrv.to_np(zfit)[:16] + 0.01
